@@ -210,7 +210,7 @@ func runC13(c *Ctx) {
 				continue
 			}
 			if bo, ok := ifi.Cond.(*ssa.BinOp); ok && bo.Op == token.GTR {
-				if k, isC := constInt(bo.Y); isC && k == 8192 && rejectEdgeOK(p, b.Succs[0], true) {
+				if k, isC := constInt(bo.Y); isC && k == 8192 && rejectEdgeFrom(p, b, b.Succs[0],true) {
 					good = true
 				}
 			}
@@ -368,7 +368,7 @@ func runRecordRulesAs(c *Ctx, P string) {
 		}
 		for _, o := range fl.Origins(bo.X) {
 			if o.Kind == "call" && strings.Contains(o.Desc, "(*bytes.Buffer).Len") {
-				if _, f, ok := fieldLoad(o.Call.Common().Args[0]); ok && f == bufFld && rejectEdgeOK(p, b.Succs[0], true) {
+				if _, f, ok := fieldLoad(o.Call.Common().Args[0]); ok && f == bufFld && rejectEdgeFrom(p, b, b.Succs[0],true) {
 					testOnBuf = true
 				}
 			}
